@@ -570,7 +570,8 @@ pub fn run_c19(ctx: &Ctx) -> Report {
         } else {
             let l = rng.range(1, 30) as usize;
             let mut s = String::from(*rng.pick(&["Err", "My", "X", "Token", "Q"]));
-            let alpha: Vec<char> = "abcdefghijklmnopqrstuvwxyzABCDEFGHIJKLMNOPQRSTUVWXYZ0123456789_".chars().collect();
+            // identifier characters, a few of them outside ASCII (XID_Continue)
+            let alpha: Vec<char> = "abcdefghijklmnopqrstuvwxyzABCDEFGHIJKLMNOPQRSTUVWXYZ0123456789_éßΩ中".chars().collect();
             while s.len() < l {
                 s.push(*rng.pick(&alpha));
             }
@@ -582,7 +583,12 @@ pub fn run_c19(ctx: &Ctx) -> Report {
         let mut src = String::new();
         src.push_str(&format!("pub enum {} {{\n", name));
         for i in 0..nvar {
-            let vn = format!("V{}", i);
+            let vn = match rng.below(8) {
+                0 => format!("Värde{}", i),
+                1 if i == 0 => (*rng.pick(&["r#type", "r#match", "r#async"])).to_string(),
+                2 => format!("a_snake_case_variant_{}", i),
+                _ => format!("V{}", i),
+            };
             let msg = if rng.chance(1, 8) { None } else { Some(gen_text(&mut rng, false)) };
             let disc = if !hashed && rng.chance(1, 5) { Some(rng.below(1000) + 1000 * i as u64) } else { None };
             if rng.chance(1, 6) {
